@@ -55,3 +55,87 @@ Theorem C10_no_refetch_while_fresh : forall masked ttl tick src s a b rv s' out 
   cquery masked ttl tick src s a b rv = (s', out, log) -> log = [].
 Proof. exact no_refetch_while_fresh. Qed.
 Print Assumptions C10_no_refetch_while_fresh.
+
+(* ---------- staleness of the FIELDS an event carries, across stitches, with a mutating source
+   (Proofs/CacheStale.v; keyed caches) ---------- *)
+From CG Require Import Proofs.CacheStale.
+
+(* For EVERY history of queries, clock advances and source mutations: an event returned by a
+   query that still shows the fields from before the w-th mutation was served while that mutation
+   was less than ttl old (t = the clock reading of the query's eviction pass; mt = the clock
+   readings at the mutations).  Contrapositive: once a change is ttl old, no result shows the old
+   fields any more — whichever segments were cached, stitched or expired in between. *)
+Theorem C10_staleness_versions : forall evs ttl tick t0 ops a b rv s' out log,
+  keyed_src evs -> ttl > 0 -> tick >= 0 -> Forall op_ok ops ->
+  (count_mut ops < N.to_nat KEYMOD)%nat ->
+  NEG_INF < a -> a < b -> b < POS_INF ->
+  let r := crun_all false ttl tick t0 evs ops in
+  let mt := mut_times false ttl tick t0 evs ops in
+  cquery false ttl tick (src_of evs (r_ver r)) (r_state r) a b rv = (s', out, log) ->
+  forall f, In f out ->
+    forall w : nat, (N.to_nat (pl_ver (pl f)) < w <= length mt)%nat ->
+    now (r_state r) < nth (w - 1) mt 0 + ttl.
+Proof. exact CacheStale.C10_staleness_versions. Qed.
+Print Assumptions C10_staleness_versions.
+
+(* ... and the event overlaps a cached segment that was fetched before that mutation and is
+   younger than ttl: the stale fields are explained by a fresh segment, never by an expired one *)
+Theorem C10_stale_version_segment : forall evs ttl tick t0 ops a b rv s' out log,
+  keyed_src evs -> ttl > 0 -> tick >= 0 -> Forall op_ok ops ->
+  (count_mut ops < N.to_nat KEYMOD)%nat ->
+  NEG_INF < a -> a < b -> b < POS_INF ->
+  let r := crun_all false ttl tick t0 evs ops in
+  let mt := mut_times false ttl tick t0 evs ops in
+  cquery false ttl tick (src_of evs (r_ver r)) (r_state r) a b rv = (s', out, log) ->
+  forall f, In f out ->
+    (pl_ver (pl f) <= r_ver r)%N /\
+    forall w : nat, (N.to_nat (pl_ver (pl f)) < w <= length mt)%nat ->
+    exists c, In c (cover s') /\ ovl f c /\
+              cv_t c <= nth (w - 1) mt 0 /\ now (r_state r) < cv_t c + ttl.
+Proof. exact CacheStale.C10_stale_version_segment. Qed.
+Print Assumptions C10_stale_version_segment.
+
+(* "a change in the source becomes visible at most ttl after ...": a query made ttl or more after
+   a mutation returns only events that carry that mutation (or a later one) *)
+Theorem C10_change_visible : forall evs ttl tick t0 ops1 ops2 a b rv s' out log,
+  keyed_src evs -> ttl > 0 -> tick >= 0 ->
+  let ops := ops1 ++ CMutate :: ops2 in
+  Forall op_ok ops -> (count_mut ops < N.to_nat KEYMOD)%nat ->
+  NEG_INF < a -> a < b -> b < POS_INF ->
+  let m := now (r_state (crun_all false ttl tick t0 evs ops1)) in
+  let r := crun_all false ttl tick t0 evs ops in
+  cquery false ttl tick (src_of evs (r_ver r)) (r_state r) a b rv = (s', out, log) ->
+  m + ttl <= now (r_state r) ->
+  forall f, In f out ->
+    (N.of_nat (count_mut ops1) < pl_ver (pl f) <= N.of_nat (count_mut ops))%N.
+Proof. exact CacheStale.C10_change_visible. Qed.
+Print Assumptions C10_change_visible.
+
+(* the same for ANY source whose answers carry, as a ghost stamp sp, (at least) the clock reading
+   of the fetch that produced them, up to a latency delta: every event of every result satisfies
+   t < stamp + delta + ttl.  [reach]: states reachable by queries against such sources and clock
+   advances. *)
+Theorem C10_staleness_stamped_sources : forall sp delta ttl tick src s a b rv s' out log,
+  ttl > 0 -> tick >= 0 ->
+  reach (R_stamp sp delta) ttl tick s ->
+  NEG_INF < a -> a < b -> b < POS_INF ->
+  cquery false ttl tick src s a b rv = (s', out, log) ->
+  (forall t gs ge, In (t, gs, ge) log -> src_good (R_stamp sp delta) t (src gs ge)) ->
+  forall f, In f out -> now s < sp (pl f) + delta + ttl.
+Proof. exact CacheStale.C10_staleness_output. Qed.
+Print Assumptions C10_staleness_stamped_sources.
+
+(* the repaired stitch matters: taking the fields of the OLDER fragment (the code before
+   ea8f0d8) breaks the stamp invariant on the D14 history *)
+Theorem C10_wrong_stitch_side_refuted :
+  stitch_at false 10 true d14_clipped = [Iv 2 20 2000; Iv 5 15 1000] /\
+  stitch_at false 10 false d14_clipped = [Iv 2 20 2001; Iv 5 15 1001] /\
+  ~ stamp_inv (R_ver [2]) (stitch_at false 10 true d14_clipped) [mkCov 0 10 1; mkCov 10 20 6] /\
+  stamp_chk (fun p tau => if (N.to_nat (pl_ver p) <? 1)%nat then tau <=? 2 else true)
+            (stitch_at false 10 false d14_clipped) [mkCov 0 10 1; mkCov 10 20 6] = true.
+Proof. exact CacheStale.d14_wrong_side. Qed.
+Print Assumptions C10_wrong_stitch_side_refuted.
+
+(* non-vacuity: the D14 history (query, mutate, query next door, advance past the first expiry,
+   query again) meets the hypotheses and the bound is attained *)
+Example C10_staleness_nonvacuous : _ := CacheStale.d14_stale_but_young.
